@@ -158,6 +158,11 @@ pub trait WalletBackend<'ck, C, K> where C: NodeClient + 'ck, K: Keychain + 'ck 
 
     fn store_tx(&self, uuid: &str, tx: &Transaction) -> (r: Result<(), Error>);
 
+    // the stored next-child counter of an account (0 when none is stored)
+    fn current_child_index(&mut self, parent_key_id: &Identifier) -> (r: Result<u32, Error>)
+        ensures final(self).state() == old(self).state(),
+            r matches Ok(n) ==> n == (if old(self).state().child_idx.dom().contains(*parent_key_id) { old(self).state().child_idx[*parent_key_id] } else { 0u32 });
+
     fn w2n_client(&mut self) -> (r: &mut C)
         ensures final(self).state() == old(self).state();
 
